@@ -420,3 +420,15 @@ theorem mod_range (a M : ℤ) (_hM : 0 < M) :
       rw [Int.sub_emod_right]
     rw [this]
     exact Int.emod_eq_of_lt (by omega) (by omega)
+
+/-! ### Residues along an arithmetic progression (the prime generator, property C19) -/
+
+/-- adding a multiple of M does not change the residue -/
+theorem mod_add_multiple (a b M : ℤ) (h : b % M = 0) : (a + b) % M = a % M := by
+  have : M ∣ b := Int.dvd_of_emod_eq_zero h
+  obtain ⟨t, rfl⟩ := this
+  exact Int.add_mul_emod_self_left a M t
+
+/-- adding k*M does not change the residue -/
+theorem mod_shift (a k M : ℤ) : (a + k * M) % M = a % M :=
+  Int.add_mul_emod_self_right a k M
